@@ -10,6 +10,50 @@ PROG_ADTS = {"scc_core_lang::syntax::program::Prog": "max_id", "scc_core_lang::s
              "axcut::syntax::program::Prog": "max_id"}
 
 
+def fresh_keys(ctx):
+    """the functions that hand out fresh identifiers, found by what they do rather than by their name: they increment the counter
+    behind a `&mut ID` by exactly one and build an identifier whose id is read from that counter.  Returns (keys, wrappers):
+    wrappers are functions of the same crates that call one and return its identifier (fresh_var, fresh_covar)"""
+    def build():
+        fx = ctx.fx
+        fresh_fns = set()
+        for key, f in sorted(fx.fns.items()):
+            if f["crate"] not in ID_CRATES or "{" in key:
+                continue
+            incs, idents = 0, 0
+            fn0 = None
+            for b in f["blocks"]:
+                for s in b["stmts"]:
+                    if s["k"] != "assign":
+                        continue
+                    if s["lhs"]["p"] == ["*"] and f["locals"][s["lhs"]["l"]]["ty"] == "&mut usize":
+                        fn0 = fn0 or Fn(f)
+                        incs += 1 if _is_increment(fn0, s) else -100
+                    rv = s["rv"]
+                    if rv["k"] == "agg" and rv.get("agg") == "adt" and rv["adt"] in IDENT_ADTS:
+                        fn0 = fn0 or Fn(f)
+                        if _id_class(fn0, rv["ops"][rv["fields"].index("id")]) <= {"COUNTER", "OTHER"}:
+                            idents += 1
+            if incs >= 1 and idents >= 1:
+                fresh_fns.add(key)
+        wrappers = set()
+        for key, f in sorted(fx.fns.items()):
+            if f["crate"] not in ID_CRATES or "{" in key or key in fresh_fns:
+                continue
+            if not any(f["locals"][0]["ty"].endswith(a.split("::")[-1]) for a in IDENT_ADTS):
+                continue
+            if any(b["term"]["k"] == "call" and (b["term"].get("resolved_key") or b["term"].get("callee_key")) in fresh_fns for b in f["blocks"]):
+                wrappers.add(key)
+        return fresh_fns, wrappers
+    return ctx.memo("fresh_keys", build)
+
+
+def is_fresh_call(ctx, t, wrappers=True):
+    keys, wr = fresh_keys(ctx)
+    k = t.get("resolved_key") or t.get("callee_key")
+    return k in keys or (wrappers and k in wr)
+
+
 def rule_fresh(ctx):
     fx = ctx.fx
     res = RuleResult("R-FRESH", "identifier freshness: (i) the only stores through a `&mut ID` counter in core_lang/core2axcut/axcut are "
@@ -17,28 +61,7 @@ def rule_fresh(ctx):
                      "Identifier::new), from the counter just incremented (only in fresh_identifier) or from the id of an existing "
                      "identifier; so generated ids are strictly above every existing id and never reused")
     n_store = 0
-    # the functions that hand out fresh identifiers, found by what they do rather than by their name: they increment the counter
-    # behind a `&mut ID` by exactly one and build an identifier whose id is read from that counter
-    fresh_fns = set()
-    for key, f in sorted(fx.fns.items()):
-        if f["crate"] not in ID_CRATES or "{" in key:
-            continue
-        incs, idents = 0, 0
-        fn0 = None
-        for b in f["blocks"]:
-            for s in b["stmts"]:
-                if s["k"] != "assign":
-                    continue
-                if s["lhs"]["p"] == ["*"] and f["locals"][s["lhs"]["l"]]["ty"] == "&mut usize":
-                    fn0 = fn0 or Fn(f)
-                    incs += 1 if _is_increment(fn0, s) else -100
-                rv = s["rv"]
-                if rv["k"] == "agg" and rv.get("agg") == "adt" and rv["adt"] in IDENT_ADTS:
-                    fn0 = fn0 or Fn(f)
-                    if _id_class(fn0, rv["ops"][rv["fields"].index("id")]) <= {"COUNTER", "OTHER"}:
-                        idents += 1
-        if incs >= 1 and idents >= 1:
-            fresh_fns.add(key)
+    fresh_fns, _wr = fresh_keys(ctx)
     if not fresh_fns:
         raise AnalysisError("R-FRESH: no function increments an identifier counter by one and builds an identifier from it")
     FRESH_FNS = tuple(sorted(fresh_fns))
@@ -291,9 +314,10 @@ def rule_shadow(ctx):
                             and t.get("callee_name") not in ("uniquify", "subst_sim", "subst_var", "subst_covar", "focus", "bind", "bind_many"):
                         out |= names_of(k2, depth + 1, seen | {k2})
             return out
+        _fresh_names = {x.split("::")[-1] for ks in fresh_keys(ctx) for x in ks}
         sub = names_of(k, 0, frozenset([k]))
         ikey = "%s:rename-binder" % k
-        need_fresh = "fresh_identifier" in sub or "fresh_var" in sub or "fresh_covar" in sub
+        need_fresh = bool(sub & _fresh_names)
         need_subst = any(n in sub for n in ("subst_sim", "subst_var", "subst_covar"))
         if need_fresh and need_subst and "uniquify" in sub:
             res.inst(ikey, fn.file, fn.line, "ok")
